@@ -31,13 +31,15 @@
      decA_denotes    the statement asked for, for environments WITHOUT evolution steps
                      (nosteps E: every record / variant has r_steps = []; the inputs may still
                      carry evolution headers, unknown-length sequences, over-long var-ints ...):
-                       nlen (c ++ r) + nlen st < 2^31  ->
+                       nlen (c ++ r) + nlen st + 64 < 2^31  ->
                        exists g b st2, enc g E t v st = Ok (b, st2) /\
                          forall r2 k2, dec a_ops g E t (mkA (b ++ r2) k2 st) = Ok (v, mkA r2 k2 st2)
      Hypotheses of Part 2 beyond those of Part 1: wf_env_rt E (for PropLemmas.roundtrip);
        decA_reencode:  defaults_enc E = defaults_wf E + the FieldAdded defaults have a shape the
                        writer accepts (eov: chars < 65536, no transient constructor, ...)
-       decA_denotes:   nosteps E, defaults_wf E, and the size hypothesis above.  No hypothesis on
+       decA_denotes:   nosteps E, defaults_wf E, and the size hypothesis above (the 64 is room for
+                       a BigDecimal, whose canonical text can be up to 40 bytes longer than the
+                       text that was read: prim_small, BigDecLen.v).  No hypothesis on
                        the lengths of the strings already in the table st is needed, and none on
                        zero-width element types: a known count is < 2^31 because negative counts
                        are rejected and a var_i32 is < 2^31; an unknown-length sequence spends
@@ -67,8 +69,8 @@
      decoded elements are their own normal forms, so wf_val's no-duplicates clause holds. *)
 From Coq Require Import NArith ZArith List Lia Bool Permutation.
 From Coq Require Import ZifyBool ZifyN ZifyNat.
-From Desert Require Import Bits Outcome IO IOProofs VarintProofs Types Calendar Codec CodecWf CodecLemmas
-  ChronoLemmas TotalProofs MonoProofs CodecRt RecordRt RecordChunkedSpec CodecRt2 PropLemmas MiscProofs.
+From Desert Require Import Bits Outcome IO IOProofs VarintProofs Types Calendar BigDec Codec CodecWf CodecLemmas
+  BigDecLemmas BigDecLen ChronoLemmas TotalProofs MonoProofs CodecRt RecordRt RecordChunkedSpec CodecRt2 PropLemmas MiscProofs.
 Import ListNotations.
 Open Scope N_scope.
 
@@ -101,6 +103,8 @@ Definition prim_small (st0 : strtab) (L : N) (p : prim) (v : val) : Prop :=
   | (PString | PBytes), VB bs => small L (nlen bs)
   | PDedupString, VB bs => In bs st0 \/ small L (nlen bs)
   | PBigInt, VZ z => small L (nlen (bigint_to_be z))
+  (* the rendered text is at most 40 bytes longer than the text that was read *)
+  | PBigDecimal, VNode 0 [VZ i; VZ sc] => nlen (bd_render i sc) <= L + 40
   | _, _ => True
   end.
 
@@ -914,6 +918,16 @@ Section Den.
       intros _. cbn [prim_small]. pose proof (bigint_roundtrip_len bs Hok) as Hb.
       unfold small. change (2 ^ 31) with 2147483648.
       destruct (nlen bs =? 0) eqn:E0; [left | right]; lia.
+    - (* BigDecimal *)
+      eapply hoare_bind; [apply dec_string_h|].
+      intros v s1 w1 (Hw & bs & -> & Hu & Hl) _ _ _ _. cbv beta iota.
+      destruct (bd_parse bs) as [p|] eqn:Hbp; [|apply hoare_err].
+      assert (Hn : bd_normal (fst (bd_norm p)) (snd (bd_norm p)) = true).
+      { destruct p as [i sc]. apply bd_norm_normal. eapply bd_parse_scale. exact Hbp. }
+      apply hoare_ok. apply GP_intro; [exact Hn | exact I | | cbn [ew_prim]; lia].
+      intros _. cbn [prim_small].
+      pose proof (bd_render_len_tight (fst (bd_norm p)) (snd (bd_norm p)) (bd_normal_i64 _ _ Hn)) as Hr.
+      pose proof (bd_parse_len bs p Hbp) as Hq. lia.
     - (* Weekday *)
       eapply hoare_weaken; [apply dec_small_h|]. intros w v (n & -> & Hn).
       apply GP_intro; [exact Hn | exact I | intros _; exact I | cbn [ew_prim]; lia].
@@ -1903,6 +1917,10 @@ Proof.
     destruct v as [n|z|bs|tag vs]; try discriminate Hwf. apply enc_bytes_eok.
   - (* BigInt *)
     destruct v as [n|z|bs|tag vs]; try discriminate Hwf. apply enc_bytes_eok.
+  - (* BigDecimal *)
+    destruct v as [n|z|bs|tag vs]; try discriminate Hwf. destruct tag; try discriminate Hwf.
+    destruct vs as [|[|i| |] [|[|sc| |] [|? ?]]]; try discriminate Hwf.
+    unfold enc_prim. apply enc_string_eok.
   - (* Tz *)
     destruct v as [n|z|bs|tag vs]; try discriminate Hwf. unfold enc_prim.
     rewrite (tz_known_enc_string bs st Hwf). exact I.
@@ -2069,7 +2087,7 @@ Section EncOk.
   Variable st0 : strtab.
   Variable L : N.
   Hypothesis HNS : nosteps E.
-  Hypothesis HL : L < 2 ^ 31.
+  Hypothesis HL : L + 64 < 2 ^ 31.
 
   (* the encoder `e` accepts `x`, starting from any extension of st0 with room for w more strings *)
   Definition accepts (e : encoder) (w : N) (x : val) : Prop :=
@@ -2137,6 +2155,10 @@ Section EncOk.
     - (* BigInt *)
       destruct v as [n|z|bs|tag vs]; try discriminate Hwf. cbn [prim_small] in Hsm.
       eapply accepts_ok. intros st. unfold enc_prim. apply enc_bytes_ok. apply small_lt. exact Hsm.
+    - (* BigDecimal *)
+      destruct v as [n|z|bs|tag vs]; try discriminate Hwf. destruct tag; try discriminate Hwf.
+      destruct vs as [|[|i| |] [|[|sc| |] [|? ?]]]; try discriminate Hwf. cbn [prim_small] in Hsm.
+      eapply accepts_ok. intros st. unfold enc_prim. apply enc_string_ok. lia.
     - (* Tz *)
       destruct v as [n|z|bs|tag vs]; try discriminate Hwf.
       eapply accepts_ok. intros st. unfold enc_prim. rewrite (tz_known_enc_string bs st Hwf). reflexivity.
@@ -2382,7 +2404,7 @@ Qed.
 Theorem decA_denotes : forall f E t c r k st v st',
   wf_env E = true -> wf_env_rt E = true -> wf_ty E t = true ->
   defaults_wf E -> nosteps E ->
-  bytes_ok (c ++ r) -> strs_ok st -> nlen (c ++ r) + nlen st < 2 ^ 31 ->
+  bytes_ok (c ++ r) -> strs_ok st -> nlen (c ++ r) + nlen st + 64 < 2 ^ 31 ->
   dec a_ops f E t (mkA (c ++ r) k st) = Ok (v, mkA r k st') ->
   exists g b st2,
     enc g E t v st = Ok (b, st2) /\
@@ -2396,7 +2418,7 @@ Proof.
     - left. exact Hx. }
   specialize (H Hs). rewrite Hd in H. destruct H as (_ & _ & w & [g0 Hg] & Hw). cbn [fst snd a_cur] in *.
   destruct (Hg g0 (le_n _)) as ((H1 & H2 & H3) & H4). specialize (H4 HNS).
-  assert (HL : nlen (c ++ r) < 2 ^ 31) by lia.
+  assert (HL : nlen (c ++ r) + 64 < 2 ^ 31) by lia.
   destruct (eov_accepts E st (nlen (c ++ r)) HNS HL g0 t v (H3 I) st (ext_of_refl st) ltac:(lia))
     as (b & st2 & He & _ & _).
   exists g0, b, st2. split; [exact He|].
